@@ -1,12 +1,11 @@
 """MsgBox engine: C14 (exactly-once, in-order hand-off across the first-send race) at lock-step granularity.
 
- 1. TLC explores every interleaving (at the verifYield points) of small thread programs on MsgBoxLS.tla and checks the
-    design-level statement "the named deviations are the only way the pinned code violates C14".
+ 1. TLC explores every interleaving (at the verifYield points) of small thread programs on MsgBoxLS.tla and checks NoDup,
+    ExactlyOnce, PerSenderOrder, Clean and NoDeadlock (incl. a dispatcher that acknowledges from inside its session lock).
  2. The labelled state graph is dumped; all maximal schedules (small scenarios) / an edge cover + seeded walks (larger ones)
     are replayed on a real msg.Box whose goroutines are gated through the verifYield hook.
- 3. TLC validates every recorded run against MsgBoxLSTrace.tla, evaluates ExactlyOnce / PerSenderOrder / NoDup on the real
-    hand-off log and classifies violations: predicted exactly by the model of the pinned code (known finding, by deviation)
-    or not (VIOLATION).
+ 3. TLC validates every recorded run against MsgBoxLSTrace.tla (yield point reached + projected state after every step) and
+    evaluates ExactlyOnce / PerSenderOrder / NoDup / NothingLeftBehind / NoPanic / NoDeadlock on the real hand-off log.
 """
 import json
 import os
@@ -19,8 +18,8 @@ from vlib import log
 from eng_rbc import tla_val, Rec
 
 
-def M(i, src, topic):
-    return dict(k="recv", id=i, src=src, topic=topic)
+def M(i, src, topic, ack=False):
+    return dict(k="recv", id=i, src=src, topic=topic, ack=ack)
 
 
 def S(topic):
@@ -40,6 +39,19 @@ SCENARIOS = {
     "E": dict(topics=["T"], threads={"R1": [M(1, 7, "T"), M(2, 7, "T"), M(3, 7, "T")], "S1": [S("T"), S("T")]}),
     # two connections with two messages each and a Send
     "F": dict(topics=["T"], threads={"R1": [M(1, 7, "T"), M(2, 7, "T")], "R2": [M(3, 8, "T"), M(4, 8, "T")], "S1": [S("T")]}),
+    # the dispatcher acknowledges from inside its session lock (Send nested in the handler): the pattern of the reliable broadcast
+    "G": dict(topics=["T"], threads={"R1": [M(1, 7, "T", True), M(2, 7, "T", True)], "S1": [S("T")]}),
+    "H": dict(topics=["T"], threads={"R1": [M(1, 7, "T", True)], "R2": [M(2, 8, "T", True)], "S1": [S("T")]}),
+    # acknowledging and plain messages, two Sends
+    "I": dict(topics=["T"], threads={"R1": [M(1, 7, "T", True), M(2, 7, "T")], "R2": [M(3, 8, "T")], "S1": [S("T"), S("T")]}),
+    # two topics with acknowledgements: sessions are independent
+    "J": dict(topics=["T", "U"], threads={"R1": [M(1, 7, "T", True), M(2, 7, "U", True)], "S1": [S("T")], "S2": [S("U")]}),
+    # two concurrent Sends, two connections
+    "K": dict(topics=["T"], threads={"R1": [M(1, 7, "T"), M(2, 7, "T")], "R2": [M(3, 8, "T", True)], "S1": [S("T")], "S2": [S("T")]}),
+    # a longer stream with acknowledgements: arrivals queue up behind a hand-over that itself sends
+    "L": dict(topics=["T"], threads={"R1": [M(1, 7, "T", True), M(2, 7, "T", True), M(3, 7, "T"), M(4, 7, "T", True)], "S1": [S("T")]}),
+    # three connections
+    "M": dict(topics=["T"], threads={"R1": [M(1, 7, "T", True)], "R2": [M(2, 8, "T")], "R3": [M(3, 9, "T"), M(4, 9, "T")], "S1": [S("T")]}),
 }
 
 
@@ -49,7 +61,8 @@ def prog_tla(sc):
         seq = []
         for op in ops:
             if op["k"] == "recv":
-                seq.append('[k |-> "recv", m |-> [id |-> %d, src |-> %d, topic |-> "%s"]]' % (op["id"], op["src"], op["topic"]))
+                seq.append('[k |-> "recv", m |-> [id |-> %d, src |-> %d, topic |-> "%s", ack |-> %s]]' % (
+                    op["id"], op["src"], op["topic"], "TRUE" if op.get("ack") else "FALSE"))
             else:
                 seq.append('[k |-> "send", t |-> "%s"]' % op["topic"])
         items.append('"%s" :> <<%s>>' % (name, ", ".join(seq)))
@@ -69,8 +82,7 @@ def write_mc(wd, name, sc, trace=None, invariants=()):
     lines.append("====")
     with open(os.path.join(wd, mod + ".tla"), "w") as f:
         f.write("\n".join(lines) + "\n")
-    nlists = 3 * sum(1 for ops in sc["threads"].values() for op in ops if op["k"] == "recv") + 2
-    c = ["CONSTANTS", "  Threads <- c_Threads", "  Prog <- c_Prog", "  Topics <- c_Topics", "  MaxLists = %d" % nlists, "  GCRuns = FALSE"]
+    c = ["CONSTANTS", "  Threads <- c_Threads", "  Prog <- c_Prog", "  Topics <- c_Topics"]
     if trace:
         c += ["  TraceFile <- c_TraceFile", "INIT TInit", "NEXT TNext"]
     else:
@@ -162,23 +174,38 @@ def schedules(edges, cap, rng):
     return paths[:cap], total, len(states), len(edges), False
 
 
+INVARIANTS = ["NoDup", "ExactlyOnce", "PerSenderOrder", "Clean", "NoDeadlock"]
+MONITORS = ["ExactlyOnce", "PerSenderOrder", "NoDup", "NothingLeftBehind", "NoPanic", "NoDeadlock"]
+
+
+def validate_traces(wd, sc_name, tf, n_expected):
+    mod = write_mc(wd, sc_name, SCENARIOS[sc_name], trace=os.path.basename(tf))
+    r = vlib.run_tlc(mod, mod + ".cfg", ["MsgBoxLS.tla", "MsgBoxLSTrace.tla"], workdir=wd, workers=1, timeout=1800, keep_prints=["VIOL", "END"], heap="8g")
+    ends = [o for (tag, o) in r.prints if tag == "END"]
+    if len(ends) != n_expected:
+        raise vlib.CheckError("box trace validation consumed %d of %d traces of scenario %s\n%s" % (len(ends), n_expected, sc_name, r.out[-2000:]))
+    return r, ends
+
+
 def run(pid):
     tr = vlib.tier()
     wd = vlib.scratch(pid)
     rng = random.Random(vlib.seed())
     verdict = vlib.Verdict(pid)
-    caps = dict(A=20000, B=3000, C=3000, D=2000, E=3000, F=1500) if tr == "quick" else dict(A=200000, B=120000, C=120000, D=60000, E=120000, F=60000)
+    capq = dict(A=20000, B=3000, C=3000, D=2000, E=3000, F=1500, G=3000, H=3000, I=2000, J=2000, K=2000, L=2000, M=2000)
+    caps = capq if tr == "quick" else {k: 40 * v for k, v in capq.items()}
     job = []
     ev = []
     states = transitions = 0
     exhaustive = {}
     for name in sorted(SCENARIOS):
         sc = SCENARIOS[name]
-        mod = write_mc(wd, name, sc, invariants=["NoDup", "ExactlyOnceUnlessStale", "OrderUnlessDeviation"])
+        mod = write_mc(wd, name, sc, invariants=INVARIANTS)
         r = vlib.run_tlc(mod, mod + ".cfg", ["MsgBoxLS.tla"], workdir=wd, timeout=900, keep_prints=["EDGE"], heap="8g")
         if r.violation:
-            raise vlib.CheckError("MsgBoxLS scenario %s violates %s at design level: the model no longer explains every violation by a named "
-                                  "deviation\n%s" % (name, r.violation, "".join(r.error_trace[-2:])[:3000]))
+            raise vlib.CheckError("MsgBoxLS scenario %s violates %s at design level: the model of the buffer does not satisfy C14 any more -- "
+                                  "fix spec/MsgBoxLS.tla (or, if the model is right about the code, the code)\n%s" % (
+                                      name, r.violation, "".join(r.error_trace[-2:])[:3000]))
         edges = [o for (_, o) in r.prints]
         paths, total, ns, ne, allp = schedules(edges, caps[name], rng)
         states += r.distinct
@@ -207,19 +234,16 @@ def run(pid):
                 traces[cur] = []
                 per.setdefault(o["sci"], []).append(cur)
             traces[cur].append(line)
-    stats = dict(replayed=len(traces), validated=0, drift=0, drift_kinds={}, known={}, events=sum(len(v) for v in traces.values()))
+    stats = dict(replayed=len(traces), validated=0, drift=0, drift_kinds={}, events=sum(len(v) for v in traces.values()))
     sample = None
+    selftest_src = None
     for sci, ts in sorted(per.items()):
         sc = job[sci]
         tf = os.path.join(wd, "btrace_%d.ndjson" % sci)
         with open(tf, "w") as f:
             for t in ts:
                 f.writelines(traces[t])
-        mod = write_mc(wd, sc["name"], SCENARIOS[sc["name"]], trace=os.path.basename(tf))
-        r = vlib.run_tlc(mod, mod + ".cfg", ["MsgBoxLS.tla", "MsgBoxLSTrace.tla"], workdir=wd, workers=1, timeout=1800, keep_prints=["VIOL", "KNOWN", "END"], heap="8g")
-        ends = [o for (tag, o) in r.prints if tag == "END"]
-        if len(ends) != len(ts):
-            raise vlib.CheckError("box trace validation consumed %d of %d traces of scenario %s\n%s" % (len(ends), len(ts), sc["name"], r.out[-2000:]))
+        r, ends = validate_traces(wd, sc["name"], tf, len(ts))
         stats["validated"] += len(ends)
         for o in ends:
             if o["drift"]:
@@ -227,47 +251,106 @@ def run(pid):
                 k = o["drift"].split(" @line")[0]
                 stats["drift_kinds"][k] = stats["drift_kinds"].get(k, 0) + 1
         for tag, o in r.prints:
-            if tag not in ("VIOL", "KNOWN"):
+            if tag != "VIOL":
                 continue
             t = o["t"]
             evs = [json.loads(x) for x in traces[t]]
             sched = [e["th"] for e in evs if e["e"] == "step"]
-            if tag == "KNOWN":
-                # explained by the model of the pinned code: one finding per deviation that can cause this monitor to fail
-                causes = {"ExactlyOnce": ["stranded", "orphan", "fresh-buffer-swept"],
-                          "PerSenderOrder": ["overtake", "stale-store-drained-later", "stranded", "orphan", "fresh-buffer-swept"]}.get(o["mon"], [])
-                devs = [d for d in o["devs"] if d in causes] or ["unexplained"]
-                for d in devs:
-                    sig = "%s/%s" % (o["mon"], d)
-                    stats["known"][sig] = stats["known"].get(sig, 0) + 1
-                    verdict.violation(sig, "C14 monitor %s is false on the real hand-off log of scenario %s under schedule %s (deviation %s of the "
-                                           "pinned code, predicted by the model)" % (o["mon"], sc["name"], "".join(x[0] + x[-1] + " " for x in sched), d),
-                                      dict(property=pid, monitor=o["mon"], deviation=d, scenario=sc["name"], schedule=sched, real_trace=evs))
-            else:
-                sig = "%s/not-predicted" % o["mon"]
-                verdict.violation(sig, "C14 monitor %s is false on the real hand-off log of scenario %s under schedule %s and the model of the pinned "
-                                       "code does not predict this outcome" % (o["mon"], sc["name"], " ".join(sched)),
-                                  dict(property=pid, monitor=o["mon"], scenario=sc["name"], schedule=sched, real_trace=evs))
+            verdict.violation("%s/%s" % (o["mon"], sc["name"]),
+                              "C14 monitor %s is false on the real hand-off log of scenario %s under schedule %s" % (o["mon"], sc["name"], " ".join(sched)),
+                              dict(property=pid, monitor=o["mon"], scenario=sc["name"], schedule=sched, real_trace=evs))
         if sample is None and ts:
             evs = [json.loads(x) for x in traces[ts[len(ts) // 2]]]
             sample = dict(scenario=sc["name"], schedule=[e["th"] for e in evs if e["e"] == "step"], handed=[e for e in evs if e["e"] == "step"][-1]["handed"])
-    log("box: %d schedules replayed on the real Box (%d steps), drift in %d, explained violations: %r" % (stats["replayed"], stats["events"], stats["drift"], stats["known"]))
+        if sc["name"] == "F" and ts:
+            # a run in which both messages of one sender were handed over, for the binding self-test
+            for t in ts:
+                evs = [json.loads(x) for x in traces[t]]
+                steps = [e for e in evs if e["e"] == "step"]
+                if steps and len(steps[-1]["handed"]) == 4:
+                    selftest_src = (sc["name"], traces[t])
+                    break
+    log("box: %d schedules replayed on the real Box (%d steps), drift in %d" % (stats["replayed"], stats["events"], stats["drift"]))
     for k, v in stats["drift_kinds"].items():
         print("DRIFT property=%s count=%d kind=%s" % (pid, v, k))
+    st_res = None
+    if selftest_src and not verdict.violations:
+        st_res = selftest(wd, *selftest_src)
     rc = verdict.finish()
     vlib.write_evidence(pid, "model_checking", dict(
         states=max(states, 1), transitions=max(transitions, 1), traces_validated_against_impl=stats["validated"],
         samples=[sample] if sample else [dict(note="none")], exhaustive=all(exhaustive.values()), scenarios=ev,
         real_steps=stats["events"], drift_traces=stats["drift"], drift_kinds=stats["drift_kinds"],
-        explained_violations=stats["known"], known_findings_seen=sorted(verdict.known_seen),
+        model_invariants=INVARIANTS, monitors=MONITORS, binding_selftest=st_res, known_findings_seen=sorted(verdict.known_seen),
         rule="schedules = maximal paths of the lock-step state graph of each thread program (all of them when below the cap, else an edge "
              "cover plus seeded walks); each replayed on a real msg.Box with goroutines gated at the verifYield points",
     ), [
-        "yield points sit immediately before every top-level lock acquisition of msg.Box / storedMessages; code between two yield points of one "
-        "thread is atomic with respect to the other gated threads",
+        "yield points sit immediately before every top-level lock acquisition of msg.Box and before every call of the handler; code between "
+        "two yield points of one thread is atomic with respect to the other gated threads",
+        "the handler of the harness stands for the dispatcher: for flagged messages it acknowledges (Box.Send on the same topic) from inside a "
+        "per-topic lock, like threshold's threadSafeRBC around the reliable broadcast",
         "senders stay within the documented limits; the epoch clock does not advance (C15 covers limits and expiry)",
     ], violations=len(verdict.violations))
     return rc
+
+
+def selftest(wd, sc_name, lines):
+    """the trace specification must notice corruptions of a recorded real run (binding self-test)"""
+    def corrupt(fn):
+        evs = [json.loads(x) for x in lines]
+        fn(evs)
+        return [json.dumps(e, separators=(",", ":")) + "\n" for e in evs]
+
+    def swap_handed(evs):
+        # the two messages of sender 7 (ids 1, 2) handed over in the opposite order, from the step on at which both are in the log
+        for e in evs:
+            if e["e"] == "step" and 1 in e["handed"] and 2 in e["handed"]:
+                h = e["handed"]
+                i, j = h.index(1), h.index(2)
+                h[i], h[j] = h[j], h[i]
+
+    def drop_handed(evs):
+        for e in evs:
+            if e["e"] == "step":
+                e["handed"] = [x for x in e["handed"] if x != 3]
+
+    def dup_handed(evs):
+        for e in evs:
+            if e["e"] == "step" and 4 in e["handed"]:
+                e["handed"] = e["handed"] + [4]
+
+    def left_behind(evs):
+        last = [e for e in evs if e["e"] == "step"][-1]
+        last["pend"][0]["has"] = True
+        last["pend"][0]["ids"] = [9]
+
+    def wrong_yield(evs):
+        st = [e for e in evs if e["e"] == "step"]
+        st[len(st) // 2]["next"] = "create"
+
+    def hung(evs):
+        evs[-1]["hung"] = True
+
+    res = []
+    for label, fn, want_mon, want_drift in (("two messages of one sender swapped in the hand-off log", swap_handed, "PerSenderOrder", True),
+                                            ("a message removed from the hand-off log", drop_handed, "ExactlyOnce", True),
+                                            ("a message handed over twice", dup_handed, "NoDup", True),
+                                            ("a message left in the buffer of a started topic", left_behind, "NothingLeftBehind", True),
+                                            ("a yield point renamed", wrong_yield, None, True),
+                                            ("the run reported as hung", hung, "NoDeadlock", False)):
+        tf = os.path.join(wd, "selftest.ndjson")
+        with open(tf, "w") as f:
+            f.writelines(corrupt(fn))
+        r, ends = validate_traces(wd, sc_name, tf, 1)
+        mons = {o["mon"] for (tag, o) in r.prints if tag == "VIOL"}
+        drift = bool(ends[0]["drift"])
+        ok = (want_mon is None or want_mon in mons) and (not want_drift or drift)
+        if not ok:
+            raise vlib.CheckError("binding self-test of box: the corruption '%s' of a recorded trace was NOT noticed by the trace specification "
+                                  "(monitors %s, drift %r)" % (label, sorted(mons), ends[0]["drift"]))
+        log("self-test box: corruption '%s' noticed (monitors=%s, drift=%s)" % (label, sorted(mons), drift))
+        res.append(dict(corruption=label, monitors=sorted(mons), drift=drift))
+    return res
 
 
 def replay(pid, path):
